@@ -15,6 +15,7 @@ generated definition is the hand-written model's `Rule.eval` for that rule: a ch
 generated definition and the theorem no longer checks.
 """
 import ast
+import json
 import os
 import sys
 
@@ -145,6 +146,17 @@ class Translator:
                 len(e.left.args) == 1 and isinstance(e.comparators[0], ast.Name) and e.comparators[0].id == 'str':
             t = '(typeIsNotStrM %s)' % self.expr(e.left.args[0], env, cname)
             return t if isinstance(e.ops[0], ast.NotEq) else '(pyNot %s)' % t
+        if isinstance(e, ast.BinOp) and isinstance(e.op, ast.Mod) and isinstance(e.left, ast.Constant) and \
+                isinstance(e.left.value, str) and e.left.value.count('%') == 1 and \
+                ('%s' in e.left.value or '%d' in e.left.value) and not isinstance(e.right, ast.Tuple):
+            lit = e.left.value
+            d = 's' if '%s' in lit else 'd'
+            pre, post = lit.split('%' + d)
+            return "(fmt1M %s %s '%s' %s)" % (json.dumps(pre), json.dumps(post), d, self.expr(e.right, env, cname))
+        if isinstance(e, ast.Call) and isinstance(e.func, ast.Attribute) and e.func.attr == 'join' and \
+                isinstance(e.func.value, ast.Constant) and isinstance(e.func.value.value, str) and len(e.args) == 1 and \
+                not e.keywords:
+            return '(joinM (cStr %s) %s)' % (json.dumps(e.func.value.value), self.expr(e.args[0], env, cname))
         if isinstance(e, ast.BinOp) and isinstance(e.op, (ast.Add, ast.Sub)):
             return '(%s %s %s)' % ('addM' if isinstance(e.op, ast.Add) else 'subM', self.expr(e.left, env, cname),
                                    self.expr(e.right, env, cname))
@@ -182,6 +194,8 @@ class Translator:
                 return self.expr(e.args[0], env, cname)
             if isinstance(e, ast.List) and e.elts:
                 return '(seqOfM [%s])' % ', '.join(self.expr(x, env, cname) for x in e.elts)
+        if isinstance(e, ast.Dict) and not e.keys:
+            return 'cEmptyDict'
         if isinstance(e, ast.List) and not e.elts:
             return 'cEmptyList'
         if isinstance(e, ast.Subscript) and isinstance(e.slice, ast.Slice):
@@ -249,6 +263,12 @@ class Translator:
                     key.body.value.id == key.args.args[0].arg:
                 # sorted(xs, key=lambda x: x.order, reverse=r)
                 return '(sortedByOrderM %s %s)' % (self.expr(e.args[0], env, cname), self.expr(rev, env, cname))
+        if isinstance(e, ast.Call) and isinstance(e.func, ast.Name) and e.func.id == 'cls' and not e.args and \
+                len(e.keywords) == 1 and e.keywords[0].arg is None:
+            return '(ctorKwM %s)' % self.expr(e.keywords[0].value, env, cname)            # cls(**props)
+        if isinstance(e, ast.Call) and isinstance(e.func, ast.Attribute) and e.func.attr == '_parse' and \
+                isinstance(e.func.value, ast.Name) and e.func.value.id == 'cls' and len(e.args) == 1 and not e.keywords:
+            return '(parseM %s)' % self.expr(e.args[0], env, cname)
         if isinstance(e, ast.Call) and not e.keywords:
             f = e.func
             if isinstance(f, ast.Name):
@@ -257,6 +277,20 @@ class Translator:
                     return '(isRuleLikeM %s)' % self.expr(e.args[0], env, cname)
                 if f.id == 'isinstance' and len(e.args) == 2 and isinstance(e.args[1], ast.Name):
                     return '(isinstanceM %s "%s")' % (self.expr(e.args[0], env, cname), e.args[1].id)
+                if f.id == 'map' and len(e.args) == 2 and isinstance(e.args[0], ast.Call) and \
+                        isinstance(e.args[0].func, ast.Name) and e.args[0].func.id == 'attrgetter' and \
+                        len(e.args[0].args) == 1 and isinstance(e.args[0].args[0], ast.Constant):
+                    self.fresh += 1
+                    nm = 'c%d_p' % self.fresh
+                    return '(listCompM %s fun %s => (policyFieldM (pure %s) "%s"))' % (
+                        self.expr(e.args[1], env, cname), nm, nm, e.args[0].args[0].value)
+                if f.id == 'map' and len(e.args) == 2 and isinstance(e.args[0], ast.Name) and e.args[0].id == 'str':
+                    self.fresh += 1
+                    nm = 'c%d_x' % self.fresh
+                    return '(listCompM %s fun %s => (strM (pure %s)))' % (self.expr(e.args[1], env, cname), nm, nm)
+                if f.id == 'list' and len(e.args) == 1 and isinstance(e.args[0], ast.Call) and \
+                        isinstance(e.args[0].func, ast.Name) and e.args[0].func.id == 'map':
+                    return self.expr(e.args[0], env, cname)          # list(map(...)): the list the map was read as
                 if f.id == 'map' and len(e.args) == 2 and isinstance(e.args[0], ast.Lambda) and \
                         len(e.args[0].args.args) == 1 and not e.args[0].args.defaults:
                     # map(lambda x: E, xs), consumed at once by all() / list(): the list of the values of E
@@ -271,6 +305,10 @@ class Translator:
                         sorted(getattr(x, 'id', '?') for x in e.args[1].elts) == ['Rule', 'dict', 'str']:
                     a = self.expr(e.args[0], env, cname)
                     return '(pyOr (isinstanceM %s "str") (fun _ => (isRuleLikeM %s)))' % (a, a)
+                if f.id == '__delitem__' and len(e.args) == 2:
+                    return '(delItemM %s %s)' % (self.expr(e.args[0], env, cname), self.expr(e.args[1], env, cname))
+                if f.id == '__setitem__' and len(e.args) == 3:
+                    return '(setItemM %s)' % ' '.join(self.expr(a, env, cname) for a in e.args)
                 if f.id == '__append__' and len(e.args) == 2:
                     return '(appendM %s %s)' % (self.expr(e.args[0], env, cname), self.expr(e.args[1], env, cname))
                 if f.id == 'enumerate' and len(e.args) == 1:
@@ -600,6 +638,10 @@ class Translator:
                 if c.func.value.id == 'object' and c.func.attr == '__setattr__' and len(c.args) == 3 and \
                         isinstance(c.args[0], ast.Name) and c.args[0].id == 'self':
                     return set_self(self.expr(c.args[1], env, cname), self.expr(c.args[2], env, cname))
+            if isinstance(s, ast.Assign) and len(s.targets) == 1 and isinstance(s.targets[0], ast.Attribute) and \
+                    isinstance(s.targets[0].value, ast.Name) and s.targets[0].value.id == 'self':
+                # self.<name> = value (a class without __setattr__ of its own: a plain write)
+                return set_self('(cStr "%s")' % s.targets[0].attr, self.expr(s.value, env, cname))
             if isinstance(s, ast.Assign) and len(s.targets) == 1 and isinstance(s.targets[0], ast.Subscript) and \
                     isinstance(s.targets[0].value, ast.Attribute) and s.targets[0].value.attr == '__dict__' and \
                     isinstance(s.targets[0].value.value, ast.Name) and s.targets[0].value.value.id == 'self':
@@ -778,6 +820,19 @@ class Translator:
             env2['__w'] = '(pure %s)' % w
             return '(saveAppliedM %s %s fun %s =>\n      %s)' % (self.expr(s.value.args[0], env, cname), env['__w'], w,
                                                                self.block(rest, env2, cname, end, brk))
+        if isinstance(s, ast.Delete) and len(s.targets) == 1 and isinstance(s.targets[0], ast.Subscript) and \
+                isinstance(s.targets[0].value, ast.Name) and s.targets[0].value.id in env and s.targets[0].value.id != 'self':
+            # del d[k] on a local dictionary: the new value of d
+            tgt = s.targets[0].value.id
+            s = ast.Assign(targets=[ast.Name(id=tgt, ctx=ast.Store())],
+                           value=ast.Call(func=ast.Name(id='__delitem__', ctx=ast.Load()),
+                                          args=[ast.Name(id=tgt, ctx=ast.Load()), s.targets[0].slice], keywords=[]))
+        if isinstance(s, ast.Assign) and len(s.targets) == 1 and isinstance(s.targets[0], ast.Subscript) and \
+                isinstance(s.targets[0].value, ast.Name) and s.targets[0].value.id in env and s.targets[0].value.id != 'self':
+            tgt = s.targets[0].value.id
+            s = ast.Assign(targets=[ast.Name(id=tgt, ctx=ast.Store())],
+                           value=ast.Call(func=ast.Name(id='__setitem__', ctx=ast.Load()),
+                                          args=[ast.Name(id=tgt, ctx=ast.Load()), s.targets[0].slice, s.value], keywords=[]))
         if isinstance(s, ast.Expr) and isinstance(s.value, ast.Call) and isinstance(s.value.func, ast.Attribute) and \
                 s.value.func.attr == 'append' and isinstance(s.value.func.value, ast.Name) and \
                 s.value.func.value.id in env and len(s.value.args) == 1:
@@ -910,7 +965,61 @@ def translate_checkers(repo):
 PARSER_FUNCTIONS = ['get_tag_indices']
 
 
+AUDIT_MSG_CLASSES = ['PoliciesNopMsg', 'PoliciesUidMsg', 'PoliciesDescriptionMsg', 'PoliciesCountMsg']
+
+
+def translate_audit_msgs(repo):
+    out = ['import Model.PyPrim', '/-! GENERATED by harness/pytolean.py from vakt/audit.py - do not edit -/',
+           'set_option linter.unusedVariables false', 'namespace Vakt.GenAuditMsg', 'open Vakt Vakt.PyPrim', '']
+    done, failed = [], []
+    tr = Translator(ast.parse(open(os.path.join(repo, 'vakt', 'audit.py')).read()))
+    for c in AUDIT_MSG_CLASSES:
+        try:
+            f = tr.method(c, '__str__')
+            if f is None:
+                raise Untranslatable('no __str__')
+            tr.attrs, tr.fresh = set(), 0
+            body = tr.block(f.body, {}, c)
+            attrs = sorted(tr.attrs)
+            out.append('/-- `vakt.audit.%s.__str__` -/' % c)
+            out.append('def str_%s %s: M :=\n    %s\n' % (c, ('(%s : V) ' % ' '.join('self_%s' % a for a in attrs)) if attrs else '', body))
+            done.append(c)
+        except Untranslatable as e:
+            failed.append((c, str(e)))
+    out.append('def translatedAuditMsgs : List String := [%s]' % ', '.join('"%s"' % c for c in done))
+    out.append('def untranslatedAuditMsgs : List (String × String) := [%s]' % ', '.join(
+        '("%s", "%s")' % (c, r.replace('"', "'")) for c, r in failed))
+    out.append('')
+    out.append('end Vakt.GenAuditMsg')
+    return '\n'.join(out) + '\n', [('audit', c, []) for c in done], [('audit', c, r) for c, r in failed]
+
+
 GUARD_AUDIT_METHODS = ['check_policies_allow', 'is_allowed_check', 'is_allowed']
+
+
+def translate_inquiry(repo):
+    out = ['import Model.PyPrim', '/-! GENERATED by harness/pytolean.py from vakt/guard.py (class Inquiry) - do not edit -/',
+           'set_option linter.unusedVariables false', 'namespace Vakt.GenInquiry', 'open Vakt Vakt.PyPrim', '']
+    done, failed = [], []
+    tr = Translator(ast.parse(open(os.path.join(repo, 'vakt', 'guard.py')).read()))
+    try:
+        f = tr.method('Inquiry', '__init__')
+        params = [a.arg for a in f.args.args]
+        tr.attrs, tr.fresh = set(), 0
+        tr.effect_mode = 'obj'
+        env = {p: '(pure p_%s)' % p for p in params}
+        body = tr.block(f.body, env, 'Inquiry', end=lambda e: '(pairM cNone %s)' % e['self'])
+        out.append('/-- `vakt.guard.Inquiry.__init__` (the attribute writes as effects on the object being initialised) -/')
+        out.append('def init_Inquiry (%s : V) : M :=\n    %s\n' % (' '.join('p_%s' % p for p in params), body))
+        done.append('__init__')
+    except Untranslatable as e:
+        failed.append(('__init__', str(e)))
+    out.append('def translatedInquiry : List String := [%s]' % ', '.join('"%s"' % c for c in done))
+    out.append('def untranslatedInquiry : List (String × String) := [%s]' % ', '.join(
+        '("%s", "%s")' % (c, r.replace('"', "'")) for c, r in failed))
+    out.append('')
+    out.append('end Vakt.GenInquiry')
+    return '\n'.join(out) + '\n', [('inquiry', c, []) for c in done], [('inquiry', c, r) for c, r in failed]
 
 
 def translate_guard_audit(repo):
@@ -1006,6 +1115,30 @@ def translate_policy(repo):
     out.append('')
     out.append('end Vakt.GenPolicy')
     return '\n'.join(out) + '\n', [('policy', c, []) for c in done], [('policy', c, r) for c, r in failed]
+
+
+def translate_policy_json(repo):
+    out = ['import Model.PyPrim', '/-! GENERATED by harness/pytolean.py from vakt/policy.py (Policy.from_json) - do not edit -/',
+           'set_option linter.unusedVariables false', 'namespace Vakt.GenPolicyJson', 'open Vakt Vakt.PyPrim', '']
+    done, failed = [], []
+    tr = Translator(ast.parse(open(os.path.join(repo, 'vakt', 'policy.py')).read()))
+    try:
+        f = tr.method('Policy', 'from_json')
+        params = [a.arg for a in f.args.args]
+        tr.attrs, tr.fresh = set(), 0
+        env = {p: '(pure p_%s)' % p for p in params}
+        body = tr.block(f.body, env, 'Policy')
+        out.append('/-- `vakt.policy.Policy.from_json` -/')
+        out.append('def from_json_Policy (%s : V) : M :=\n    %s\n' % (' '.join('p_%s' % p for p in params), body))
+        done.append('from_json')
+    except Untranslatable as e:
+        failed.append(('from_json', str(e)))
+    out.append('def translatedPolicyJson : List String := [%s]' % ', '.join('"%s"' % c for c in done))
+    out.append('def untranslatedPolicyJson : List (String × String) := [%s]' % ', '.join(
+        '("%s", "%s")' % (c, r.replace('"', "'")) for c, r in failed))
+    out.append('')
+    out.append('end Vakt.GenPolicyJson')
+    return '\n'.join(out) + '\n', [('policy-json', c, []) for c in done], [('policy-json', c, r) for c, r in failed]
 
 
 MIGRATION_METHODS = ['_get_migrations', 'up', 'down']
@@ -1108,10 +1241,10 @@ def translate_memory(repo):
 OBSERVABLE_METHODS = ['add', 'update', 'delete', 'get', 'get_all']
 
 
-def translate_enfold(repo):
-    out = ['import Model.PyPrim', '/-! GENERATED by harness/pytolean.py from vakt/cache.py (class EnfoldCache) and '
-           'vakt/storage/observable.py (class ObservableMutationStorage) - do not edit -/',
-           'set_option linter.unusedVariables false', 'namespace Vakt.GenEnfold', 'open Vakt Vakt.PyPrim', '']
+def translate_observable(repo):
+    out = ['import Model.PyPrim', '/-! GENERATED by harness/pytolean.py from vakt/storage/observable.py (class ObservableMutationStorage) '
+           '- do not edit -/',
+           'set_option linter.unusedVariables false', 'namespace Vakt.GenObservable', 'open Vakt Vakt.PyPrim', '']
     done, failed = [], []
     tr = Translator(ast.parse(open(os.path.join(repo, 'vakt', 'storage', 'observable.py')).read()))
     tr.effect_mode = 'store'
@@ -1133,6 +1266,18 @@ def translate_enfold(repo):
             done.append(('Observable.' + m, []))
         except Untranslatable as e:
             failed.append(('Observable.' + m, str(e)))
+    out.append('def translatedObservable : List String := [%s]' % ', '.join('"%s"' % c for c, _ in done))
+    out.append('def untranslatedObservable : List (String × String) := [%s]' % ', '.join(
+        '("%s", "%s")' % (c, r.replace('"', "'")) for c, r in failed))
+    out.append('')
+    out.append('end Vakt.GenObservable')
+    return '\n'.join(out) + '\n', [('observable', c, a) for c, a in done], [('observable', c, r) for c, r in failed]
+
+
+def translate_enfold(repo):
+    out = ['import Model.PyPrim', '/-! GENERATED by harness/pytolean.py from vakt/cache.py (class EnfoldCache) - do not edit -/',
+           'set_option linter.unusedVariables false', 'namespace Vakt.GenEnfold', 'open Vakt Vakt.PyPrim', '']
+    done, failed = [], []
     tr = Translator(ast.parse(open(os.path.join(repo, 'vakt', 'cache.py')).read()))
     tr.effect_mode = 'store'
     for m in ENFOLD_METHODS:
@@ -1262,7 +1407,14 @@ def regenerate(repo, lean_dir):
     more_tr, more_un = [], []
     for fn, ns, names, fname in ((translate_memory, 'GenMemory', ('translatedMemory', 'untranslatedMemory'), 'Memory.lean'),
                                  (translate_guard_audit, 'GenGuardAudit', ('translatedGuardAudit', 'untranslatedGuardAudit'),
-                                  'GuardAudit.lean')):
+                                  'GuardAudit.lean'),
+                                 (translate_audit_msgs, 'GenAuditMsg', ('translatedAuditMsgs', 'untranslatedAuditMsgs'),
+                                  'AuditMsg.lean'),
+                                 (translate_inquiry, 'GenInquiry', ('translatedInquiry', 'untranslatedInquiry'), 'Inquiry.lean'),
+                                 (translate_observable, 'GenObservable', ('translatedObservable', 'untranslatedObservable'),
+                                  'Observable.lean'),
+                                 (translate_policy_json, 'GenPolicyJson', ('translatedPolicyJson', 'untranslatedPolicyJson'),
+                                  'PolicyJson.lean')):
         try:
             xtext, xtr, xun = fn(repo)
         except Exception as e:
@@ -1291,10 +1443,18 @@ if __name__ == '__main__':
         text, tr, un = translate_policy(repo)
     if '--migration' in sys.argv:
         text, tr, un = translate_migration(repo)
+    if '--inquiry' in sys.argv:
+        text, tr, un = translate_inquiry(repo)
+    if '--audit-msgs' in sys.argv:
+        text, tr, un = translate_audit_msgs(repo)
     if '--guard-audit' in sys.argv:
         text, tr, un = translate_guard_audit(repo)
     if '--memory' in sys.argv:
         text, tr, un = translate_memory(repo)
+    if '--policy-json' in sys.argv:
+        text, tr, un = translate_policy_json(repo)
+    if '--observable' in sys.argv:
+        text, tr, un = translate_observable(repo)
     if '--enfold' in sys.argv:
         text, tr, un = translate_enfold(repo)
     sys.stdout.write(text)
